@@ -2,8 +2,7 @@ package main
 
 import "math/rand"
 
-func caseC12(r *rand.Rand, cw *CalcWriter, label string, maxT int) {}
 func caseC04(r *rand.Rand, cw *CalcWriter, label string, maxT int) {}
 func caseC16(r *rand.Rand, cw *CalcWriter, label string, maxT int) {}
 
-func replayCalcExtra(cw *CalcWriter, c *calcCase, label string, k int) {}
+func replayCalcExtra2(cw *CalcWriter, c *calcCase, label string, k int) {}
